@@ -49,6 +49,16 @@ Theorem c15_streaming_equals_batch : forall st rs, run_stream st rs = run_batch 
 Proof. exact run_stream_eq_batch. Qed.
 Print Assumptions c15_streaming_equals_batch.
 
+(* The querier layer hands the aggregation one reply per host of the resolved list: hosts without endpoint
+   configuration and hosts whose request fails are present in HostsStatuses with their error. *)
+Theorem c15_failed_hosts_reported : forall l,
+  hosts_distinct (querier_replies l) -> rows_wf (querier_replies l) ->
+  let A := (aggregate (querier_replies l)).1 in
+  (forall h, (h, Unconfigured) ∈ l -> a_statuses A !! h = Some ("error"%string, ERR_UNCONFIGURED)) /\
+  (forall h msg, (h, Down msg) ∈ l -> a_statuses A !! h = Some ("error"%string, msg)).
+Proof. exact querier_failed_reported. Qed.
+Print Assumptions c15_failed_hosts_reported.
+
 (* ---------------------------------------------------------------- non-vacuity *)
 Definition ex_q : query := (["sip"; "dip"], "")%string.
 Definition ex_k1 : key := (ZERO_T, 0, "eth0", "a", "", 1, 3, 6, 443)%string.
@@ -116,3 +126,20 @@ Example c15_streaming_equals_batch_nonvacuous :
   a_hits (run_stream ex_st_bin (ex_rs ++ [ex_d])).1 = 2 /\ a_hits (aggregate (ex_rs ++ [ex_d])).1 = 3 /\
   zlen (o_rows (run_stream ex_st_bin (ex_rs ++ [ex_d])).2) = 2.
 Proof. vm_compute. repeat split; reflexivity. Qed.
+
+Definition ex_l : list (string * endpoint) :=
+  [("ghost", Unconfigured); ("h1", Alive ex_b); ("down", Down "connection refused")]%string.
+Example c15_failed_hosts_reported_nonvacuous :
+  hosts_distinct (querier_replies ex_l) /\ rows_wf (querier_replies ex_l) /\
+  a_statuses (aggregate (querier_replies ex_l)).1 !! "ghost"%string = Some ("error"%string, ERR_UNCONFIGURED) /\
+  size (a_rows (aggregate (querier_replies ex_l)).1) = 2%nat.
+Proof.
+  split; [|split].
+  - unfold hosts_distinct.
+    assert (bool_decide (NoDup (querier_replies ex_l ≫= status_keys))) as H by (vm_compute; exact I).
+    exact (bool_decide_unpack _ H).
+  - unfold rows_wf. apply Forall_forall. intros r Hr. vm_compute in Hr.
+    repeat (apply elem_of_cons in Hr as [->|Hr]); [..|by apply elem_of_nil in Hr];
+      unfold cwf; simpl; unfold M64; lia.
+  - vm_compute. split; reflexivity.
+Qed.
